@@ -48,41 +48,50 @@ def build_query(ob, qf_only=False):
     return s.to_smt2()
 
 
+Z3_CLI = "z3-new"
+
+
+def _run_z3_cli(path, timeout_s, opts=()):
+    """z3 as a separate process with a hard wall-clock limit (the in-solver timeout is not honoured by the
+    sequence solver on some queries)"""
+    try:
+        p = subprocess.run([Z3_CLI, f"-T:{max(1, int(timeout_s))}"] + list(opts) + [path], capture_output=True, text=True,
+                           timeout=timeout_s + 3)
+        out = p.stdout.strip().splitlines()
+        r = out[0].strip() if out else "error"
+        if r not in ("sat", "unsat", "unknown"):
+            r = "unknown" if r == "timeout" else ("error:" + r[:120])
+        return r
+    except subprocess.TimeoutExpired:
+        return "unknown"
+
+
 def _solve_z3(args):
+    """quick z3, then cvc5, then longer z3 attempts with other instantiation strategies / seeds"""
     text, timeout_ms, want_model = args
     t0 = time.time()
+    with tempfile.NamedTemporaryFile("w", suffix=".smt2", delete=False, dir=os.environ.get("VERIF_SCRATCH")) as f:
+        f.write(text + "\n(check-sat)\n" if "(check-sat)" not in text else text)
+        path = f.name
     try:
-        # a quantified query that is valid usually closes in well under a second; when the first attempt
-        # wanders off (unknown), other instantiation strategies / seeds are tried before giving up
-        attempts = [({}, timeout_ms), ({"smt.mbqi": False}, timeout_ms // 2), ({"smt.random_seed": 7, "smt.qi.eager_threshold": 50.0}, timeout_ms // 2)]
-        r, s = z3.unknown, None
-        for cfg, tmo in attempts:
-            ctx = z3.Context()
-            s = z3.Solver(ctx=ctx)
-            s.set("timeout", max(1000, tmo))
-            for kk, vv in cfg.items():
-                s.set(kk, vv)
-            s.from_string(text)
-            r = s.check()
-            if r != z3.unknown:
-                break
-        res = str(r)
-        model = None
-        if r == z3.sat and want_model:
-            m = s.model()
-            model = {}
-            for d in m.decls():
-                if d.arity() == 0:
-                    nm = d.name()
-                    if nm.startswith(("p_", "l_", "ret_", "ALLOC")) or "!" not in nm:
-                        try:
-                            model[nm] = str(m[d])[:400]
-                        except Exception:
-                            pass
-        reason = s.reason_unknown() if r == z3.unknown else ""
-        return res, model, time.time() - t0, reason
-    except Exception as e:  # parser / solver crash is an engine matter, never a verdict
-        return "error", None, time.time() - t0, f"{type(e).__name__}: {e}"
+        r = _run_z3_cli(path, min(2.0, timeout_ms / 1000.0))
+        if r in ("sat", "unsat"):
+            return r, None, time.time() - t0, "", "z3"
+        r2, _s2 = solve_cvc5(text, min(8.0, timeout_ms / 1000.0))
+        if r2 in ("sat", "unsat"):
+            return r2, None, time.time() - t0, "", "cvc5"
+        reason = r
+        for opts, tmo in (((), timeout_ms / 1000.0), (("smt.mbqi=false",), timeout_ms / 2000.0), (("smt.random_seed=7",), timeout_ms / 2000.0)):
+            r = _run_z3_cli(path, max(1.0, tmo), opts)
+            if r in ("sat", "unsat"):
+                return r, None, time.time() - t0, "", "z3"
+            reason = r
+        return "unknown", None, time.time() - t0, "timeout" if reason == "unknown" else reason, "z3"
+    finally:
+        try:
+            os.unlink(path)
+        except OSError:
+            pass
 
 
 def _fix_for_cvc5(text):
@@ -136,8 +145,9 @@ def discharge(obligations, timeout_ms=10000, procs=None, use_cvc5=True, cvc5_tim
     # the un-carved twin of a known finding only has to stay unproved: a short budget is enough
     jobs = [(t, 3000 if ob.name.endswith("@known") else timeout_ms, True) for ob, t in zip(obligations, texts) if t is not None]
     if jobs:
-        with mp.get_context("fork").Pool(procs) as pool:
-            results = pool.map(_solve_z3, jobs, chunksize=1)
+        from concurrent.futures import ThreadPoolExecutor
+        with ThreadPoolExecutor(max_workers=procs) as pool:      # threads only wait for solver processes
+            results = list(pool.map(_solve_z3, jobs))
     else:
         results = []
     verdicts = []
@@ -146,14 +156,8 @@ def discharge(obligations, timeout_ms=10000, procs=None, use_cvc5=True, cvc5_tim
         if text is None:
             verdicts.append(Verdict(ob, "undecided", "-", 0.0, reason="query construction failed: " + ob._build_error))
             continue
-        res, model, secs, reason = results[ri]
+        res, model, secs, reason, solver = results[ri]
         ri += 1
-        solver = "z3"
-        if res in ("unknown", "error") and use_cvc5:
-            r2, s2 = solve_cvc5(text, cvc5_timeout)
-            secs += s2
-            if r2 in ("sat", "unsat"):
-                res, solver = r2, "cvc5"
         if ob.expect_sat and res not in ("sat", "unsat"):
             # vacuity cover with quantified preconditions: decide the quantifier-free part (recorded as partial)
             r3 = _solve_z3((build_query(ob, qf_only=True), timeout_ms, False))
